@@ -1,12 +1,22 @@
 import Vgi.Model.Values
-import Vgi.Proofs.Values
+import Vgi.Proofs.ValuesSpec
+import Vgi.Proofs.ValuesScalar
+import Vgi.Proofs.ValuesTree
 /-!
 # C08 — Values survive Arrow serialization for every supported type
 
-Property theorems about `Vgi.Values` (model of `vgirpc/types_{serialize,deserialize,schema,convert}.go`
-as repaired by the `fix:` commits for F08a–e). Part 1 is the conversion arithmetic over the WHOLE
-wire range of every scalar type; part 2 lifts it to arbitrary nesting (pointers, lists, maps,
-struct-tagged structs, the top-level parameter struct); part 3 is the schema memoization.
+Property theorems about `Vgi.Values`, the model of `vgirpc/types_{serialize,deserialize,schema,
+convert,cache}.go` as repaired by the `fix:` commits for F08a–e (the proofs are in
+`Vgi.Proofs.ValuesScalar` / `Vgi.Proofs.ValuesTree`; this file only states them).
+
+1. the conversion arithmetic over the WHOLE wire range of every scalar type, in both directions
+   (Go value → wire → Go value, and wire → Go value → wire);
+2. the structural round trip for arbitrary nesting — pointers, lists, maps, struct-tagged structs
+   and the top-level parameter struct — with nil and empty collections identified and every leaf
+   at its documented precision (`canon`);
+3. the memoized schema derivation returns, on every call of every history, what the uncached walk
+   computes.
+
 No bound on sizes, depths or values appears in any statement.
 -/
 namespace Vgi.Props.C08
@@ -19,100 +29,51 @@ open Vgi Vgi.Values
 |µs| > 2⁶³/1000.) -/
 theorem ts_wire_roundtrip (us : Int) (h1 : -9223372036854775808 ≤ us) (h2 : us < 9223372036854775808) :
     unixMicro (timestampToTime us) = us ∧
-      0 ≤ (timestampToTime us).nsec ∧ (timestampToTime us).nsec < 1000000000 := by
-  unfold unixMicro timestampToTime goUnix trem tquot wrapS64
-  by_cases h : 0 ≤ us
-  · simp only [h, if_true]
-    split
-    · split <;> (try split) <;> (try dsimp only) <;> omega
-    · dsimp only; omega
-  · simp only [h, if_false]
-    split
-    · split <;> (try split) <;> (try dsimp only) <;> omega
-    · dsimp only; omega
+      0 ≤ (timestampToTime us).nsec ∧ (timestampToTime us).nsec < 1000000000 :=
+  Vgi.Values.ts_wire_roundtrip us h1 h2
 
 /-- Timestamps, Go → wire → Go: every instant whose microsecond count fits the wire type comes
-back as the same instant truncated (floored) to the microsecond. -/
+back as the same instant floored to the microsecond. -/
 theorem ts_value_roundtrip (t : GoTime) (hn : 0 ≤ t.nsec ∧ t.nsec < 1000000000)
     (h1 : -9223372036854775808 ≤ t.sec * 1000000 + t.nsec / 1000)
     (h2 : t.sec * 1000000 + t.nsec / 1000 < 9223372036854775808) :
-    timestampToTime (unixMicro t) = ⟨t.sec, t.nsec / 1000 * 1000⟩ := by
-  obtain ⟨s, n⟩ := t
-  simp only at hn h1 h2
-  have hw : unixMicro ⟨s, n⟩ = s * 1000000 + n / 1000 := by
-    unfold unixMicro wrapS64; dsimp only; omega
-  rw [hw]
-  unfold timestampToTime goUnix trem tquot
-  by_cases h : 0 ≤ s * 1000000 + n / 1000
-  · simp only [h, if_true]
-    split
-    · split <;> (try split) <;> (try dsimp only) <;> (try simp only [GoTime.mk.injEq]) <;> omega
-    · simp only [GoTime.mk.injEq]; omega
-  · simp only [h, if_false]
-    split
-    · split <;> (try split) <;> (try dsimp only) <;> (try simp only [GoTime.mk.injEq]) <;> omega
-    · simp only [GoTime.mk.injEq]; omega
+    timestampToTime (unixMicro t) = ⟨t.sec, t.nsec / 1000 * 1000⟩ :=
+  Vgi.Values.ts_value_roundtrip t hn h1 h2
 
-example : timestampToTime (unixMicro ⟨16725225600, 123456789⟩) = ⟨16725225600, 123456000⟩ := by decide
+example : timestampToTime (unixMicro ⟨16725225600, 123456789⟩) = ⟨16725225600, 123456000⟩ := by decide  -- year 2500
 example : unixMicro (timestampToTime (-9223372036854775808)) = -9223372036854775808 := by decide
 
 /-- Dates, the whole int32 day range: any instant inside UTC day `d` (any second of the day, any
 nanosecond) encodes as `d`. (F08b: the pre-fix code saturated beyond ±106751 days; F08c: it
 truncated toward zero, so instants before 1970 landed on the following day.) -/
 theorem date_day_class (d s ns : Int) (hd : -2147483648 ≤ d ∧ d < 2147483648)
-    (hs : 0 ≤ s ∧ s < 86400) : daysSinceEpoch ⟨d * 86400 + s, ns⟩ = d := by
-  unfold daysSinceEpoch trem tquot wrapS32
-  dsimp only
-  by_cases h : 0 ≤ d * 86400 + s
-  · simp only [h, if_true]; split <;> omega
-  · simp only [h, if_false]; split <;> omega
+    (hs : 0 ≤ s ∧ s < 86400) : daysSinceEpoch ⟨d * 86400 + s, ns⟩ = d :=
+  Vgi.Values.date_day_class d s ns hd hs
 
 /-- Dates, wire → Go → wire. -/
 theorem date_wire_roundtrip (d : Int) (hd : -2147483648 ≤ d ∧ d < 2147483648) :
-    daysSinceEpoch (date32ToTime d) = d := by
-  have := date_day_class d 0 0 hd (by omega)
-  simpa [date32ToTime] using this
+    daysSinceEpoch (date32ToTime d) = d :=
+  Vgi.Values.date_wire_roundtrip d hd
 
 /-- Dates, Go → wire → Go: midnight UTC of the instant's own UTC calendar day. -/
 theorem date_value_roundtrip (t : GoTime) (hd : -2147483648 ≤ t.sec / 86400 ∧ t.sec / 86400 < 2147483648) :
-    date32ToTime (daysSinceEpoch t) = ⟨t.sec / 86400 * 86400, 0⟩ := by
-  obtain ⟨s, n⟩ := t
-  have := date_day_class (s / 86400) (s % 86400) n hd (by omega)
-  have e : s / 86400 * 86400 + s % 86400 = s := by omega
-  rw [e] at this
-  simp only [date32ToTime, this]
+    date32ToTime (daysSinceEpoch t) = ⟨t.sec / 86400 * 86400, 0⟩ :=
+  Vgi.Values.date_value_roundtrip t hd
 
-example : daysSinceEpoch ⟨-43200, 0⟩ = -1 := by decide          -- 1969-12-31T12:00Z (F08c witness)
+example : daysSinceEpoch ⟨-43200, 0⟩ = -1 := by decide            -- 1969-12-31T12:00Z (F08c witness)
 example : daysSinceEpoch ⟨16725225600, 0⟩ = 193579 := by decide   -- 2500-01-01 (F08b witness)
 example : daysSinceEpoch (date32ToTime (-2147483648)) = -2147483648 := by decide
 
 /-- Times of day, wire → Go → wire over the valid time64[us] range. -/
 theorem time_wire_roundtrip (us : Int) (h : 0 ≤ us ∧ us < 86400000000) :
-    microsSinceMidnight (time64ToTime us) = us := by
-  unfold microsSinceMidnight time64ToTime
-  rw [wrapS64_id (us * 1000) (by omega) (by omega)]
-  unfold goAdd trem tquot
-  dsimp only
-  have h0 : (0 : Int) ≤ us * 1000 := by omega
-  simp only [h0, if_true]
-  split <;> (try split) <;> (try dsimp only) <;> omega
+    microsSinceMidnight (time64ToTime us) = us :=
+  Vgi.Values.time_wire_roundtrip us h
 
 /-- Times of day, Go → wire → Go: the time of day of the instant (UTC), to the microsecond, on
 the fixed epoch day. -/
 theorem time_value_roundtrip (t : GoTime) (hn : 0 ≤ t.nsec ∧ t.nsec < 1000000000) :
-    time64ToTime (microsSinceMidnight t) = ⟨t.sec % 86400, t.nsec / 1000 * 1000⟩ := by
-  obtain ⟨s, n⟩ := t
-  simp only at hn
-  unfold microsSinceMidnight time64ToTime
-  dsimp only
-  have hm : (s % 86400 / 3600 * 3600000000 + s % 86400 % 3600 / 60 * 60000000 + s % 86400 % 60 * 1000000 + n / 1000)
-      = (s % 86400) * 1000000 + n / 1000 := by omega
-  rw [hm, wrapS64_id _ (by omega) (by omega)]
-  unfold goAdd trem tquot
-  dsimp only
-  have h0 : (0 : Int) ≤ ((s % 86400) * 1000000 + n / 1000) * 1000 := by omega
-  simp only [h0, if_true]
-  split <;> (try split) <;> (try dsimp only) <;> simp only [GoTime.mk.injEq] <;> omega
+    time64ToTime (microsSinceMidnight t) = ⟨t.sec % 86400, t.nsec / 1000 * 1000⟩ :=
+  Vgi.Values.time_value_roundtrip t hn
 
 example : time64ToTime (microsSinceMidnight ⟨-1, 999999999⟩) = ⟨86399, 999999000⟩ := by decide
 
@@ -120,26 +81,13 @@ example : time64ToTime (microsSinceMidnight ⟨-1, 999999999⟩) = ⟨86399, 999
 whole microseconds. -/
 theorem dur_value_roundtrip (ns : Int) (h : -9223372036854775808 ≤ ns ∧ ns < 9223372036854775808) :
     durDecode (durEncode ns) = ns - trem ns 1000 ∧
-      (0 ≤ ns → 0 ≤ trem ns 1000 ∧ trem ns 1000 < 1000) ∧ (ns < 0 → -1000 < trem ns 1000 ∧ trem ns 1000 ≤ 0) := by
-  unfold durDecode durEncode trem tquot
-  by_cases h0 : 0 ≤ ns
-  · simp only [h0, if_true]
-    rw [wrapS64_id _ (by omega) (by omega)]; omega
-  · simp only [h0, if_false]
-    have hb : (-ns) / 1000 ≤ 9223372036854775 := by
-      have := Int.ediv_le_ediv (a := -ns) (b := 9223372036854775808) (c := 1000) (by omega) (by omega)
-      omega
-    have g1 : -9223372036854775808 ≤ -(-ns / 1000) * 1000 := by omega
-    have g2 : -(-ns / 1000) * 1000 < 9223372036854775808 := by omega
-    rw [wrapS64_id _ g1 g2]
-    refine ⟨by omega, fun hx => by first | exact hx.elim | exact absurd hx h0, fun _ => by omega⟩
+      (0 ≤ ns → 0 ≤ trem ns 1000 ∧ trem ns 1000 < 1000) ∧ (ns < 0 → -1000 < trem ns 1000 ∧ trem ns 1000 ≤ 0) :=
+  Vgi.Values.dur_value_roundtrip ns h
 
 /-- Durations, wire → Go → wire for every microsecond count a Go `time.Duration` can hold. -/
 theorem dur_wire_roundtrip (us : Int) (h : -9223372036854775 ≤ us ∧ us ≤ 9223372036854775) :
-    durEncode (durDecode us) = us := by
-  unfold durDecode durEncode tquot
-  rw [wrapS64_id _ (by omega) (by omega)]
-  split <;> omega
+    durEncode (durDecode us) = us :=
+  Vgi.Values.dur_wire_roundtrip us h
 
 example : durDecode (durEncode (-1500)) = -1000 := by decide
 
@@ -148,27 +96,15 @@ signedness, widths up to 64), a value inside both ranges survives. -/
 theorem int_value_roundtrip (go wire : ITy) (v : Int)
     (hg : 0 < go.bits ∧ go.bits ≤ 64) (hw : 0 < wire.bits ∧ wire.bits ≤ 64)
     (h1 : go.InRange v) (h2 : wire.InRange v) :
-    decodeInt go wire (encodeInt wire v) = v := by
-  have e1 := wrap_i64_of_inRange wire v hw h2
-  have e2 := wrap_of_inRange wire v hw.1 h2
-  have e3 := wrap_of_inRange go v hg.1 h1
-  have e4 := wrap_i64_of_inRange go v hg h1
-  unfold encodeInt decodeInt
-  cases hs : wire.signed <;> cases hgs : go.signed <;>
-    simp only [if_true, if_false, Bool.false_eq_true] <;> simp_all
+    decodeInt go wire (encodeInt wire v) = v :=
+  Vgi.Values.int_value_roundtrip go wire v hg hw h1 h2
 
 /-- Integer widths, wire → Go → wire. -/
 theorem int_wire_roundtrip (go wire : ITy) (w : Int)
     (hg : 0 < go.bits ∧ go.bits ≤ 64) (hw : 0 < wire.bits ∧ wire.bits ≤ 64)
     (h1 : go.InRange w) (h2 : wire.InRange w) :
-    encodeInt wire (decodeInt go wire w) = w := by
-  have e1 := wrap_i64_of_inRange wire w hw h2
-  have e2 := wrap_of_inRange wire w hw.1 h2
-  have e3 := wrap_of_inRange go w hg.1 h1
-  have e4 := wrap_i64_of_inRange go w hg h1
-  unfold encodeInt decodeInt
-  cases hs : wire.signed <;> cases hgs : go.signed <;>
-    simp only [if_true, if_false, Bool.false_eq_true] <;> simp_all
+    encodeInt wire (decodeInt go wire w) = w :=
+  Vgi.Values.int_wire_roundtrip go wire w hg hw h1 h2
 
 example : decodeInt ⟨false, 64⟩ ⟨false, 64⟩ (encodeInt ⟨false, 64⟩ 18446744073709551615) = 18446744073709551615 := by decide
 example : decodeInt ⟨true, 64⟩ ⟨true, 8⟩ (encodeInt ⟨true, 8⟩ (-128)) = -128 := by decide
@@ -177,10 +113,123 @@ example : decodeInt ⟨true, 64⟩ ⟨true, 8⟩ (encodeInt ⟨true, 8⟩ (-128)
 decimal places and parses back to the same scaled integer. -/
 theorem decimal_wire_roundtrip (n : Int) (h : -decLimit < n ∧ n < decLimit) :
     decParse (decToString n) = .ok n :=
-  decParse_decToString n h
+  Vgi.Values.decimal_wire_roundtrip n h
+
+/-- Decimals, Go → wire → Go: a string the parser accepts comes back as the canonical four-place
+rendering of the value it was read as, and that rendering is a fixed point. -/
+theorem decimal_value_roundtrip (x : BStr) (n : Int) (h : decParse x = .ok n) :
+    -decLimit < n ∧ n < decLimit ∧ decParse (decToString n) = .ok n := by
+  have hb : -decLimit < n ∧ n < decLimit := by
+    simp only [decParse] at h
+    split at h
+    · cases h
+    · rename_i m _
+      unfold decLimit at h ⊢
+      split at h
+      · cases h
+        split <;> omega
+      · cases h
+  exact ⟨hb.1, hb.2, Vgi.Values.decimal_wire_roundtrip n hb⟩
 
 example : decToString (-15000) = ['-', '1', '.', '5', '0', '0', '0'] := by decide
 example : decParse ['1', '.', '2', '3', '4', '5', '6'] = .ok 12346 := by
   simp [decParse, decParseBody, decScale, parseDigits, parseDigitsAcc, digitVal, decLimit]
+
+/-! ## 2. The structural round trip -/
+
+/-- Every representable value of every supported type, nested to any depth: serializing `v`
+succeeds, and decoding the cell into a field of type `t` yields `canon t a v` — `v` with nil
+collections read as empty ones, map entries in wire key order, every leaf at its documented
+precision, untagged struct fields at zero. -/
+theorem roundtrip (t : GoTy) (a : ATy) (v : Val) (h : WT t a v) :
+    ∃ c, encode a v = .ok c ∧ decode t c = .ok (canon t a v) :=
+  rt_val v t a h
+
+/-- The top-level parameter/result struct (`serializeVgirpcStruct` then `deserializeParams`):
+tagged fields are carried positionally, any tag names, duplicates included. -/
+theorem roundtrip_struct (gfs : GoFields) (afs : AFields) (sfs : SFields) (h : WTfields gfs afs sfs) :
+    ∃ cfs, encodeTop afs sfs = .ok cfs ∧ decodeTop gfs cfs = .ok (canonFields gfs afs sfs) := by
+  obtain ⟨cfs, h1, h2, _⟩ := rt_fields sfs gfs afs h
+  exact ⟨cfs, h1, h2⟩
+
+/-- What `canon` does to a leaf is exactly the documented precision, nothing else: integers,
+floats (by bits), bools, strings, binaries and nil pointers come back unchanged. -/
+theorem canon_exact_leaves (t : GoTy) (a : ATy) :
+    (∀ x, canon t a (.f32 x) = .f32 x) ∧ (∀ x, canon t a (.f64 x) = .f64 x) ∧ (∀ x, canon t a (.bool x) = .bool x) ∧
+    (∀ x, canon t a (.int x) = .int x) ∧ (∀ x, canon t a (.bytes x) = .bytes x) ∧ canon t a .nil = .nil ∧
+    (∀ x, a ≠ .dec → canon t a (.str x) = .str x) := by
+  refine ⟨?_, ?_, ?_, ?_, ?_, ?_, ?_⟩ <;> intros <;> (try cases a) <;> simp_all [canon, leafCanon]
+
+/-- nil and empty collections are treated alike: both come back as the empty collection. -/
+theorem canon_nil_empty (et kt vt : GoTy) (ea ka va : ATy) :
+    canon (.slice et) (.list ea) (.slice true .nil) = canon (.slice et) (.list ea) (.slice false .nil) ∧
+    canon (.map kt vt) (.map ka va) (.map true .nil) = canon (.map kt vt) (.map ka va) (.map false .nil) := by
+  simp [canon, derefTy, canons, canonKVs, sortKVs]
+
+/-! Non-vacuity: a struct with a nullable list of timestamps, a map with a nil pointer value and a
+nested struct-tagged struct is well typed at the schema the derivation itself produces. -/
+
+def exTy : GoFields :=
+  .cons ['t', 's', ',', 'e', 'l', 'e', 'm', '=', 't', 'i', 'm', 'e', 's', 't', 'a', 'm', 'p'] [] (.ptr (.slice (.ptr (.prim .time))))
+  (.cons ['m'] [] (.map (.prim .str) (.ptr (.prim (.int ⟨true, 64⟩))))
+  (.cons ['-'] [] (.prim .bool)
+  (.cons ['s', ',', 's', 't', 'r', 'u', 'c', 't'] []
+      (.struct (.cons ['d', ',', 'd', 'a', 't', 'e'] [] (.prim .time) (.cons ['n', ',', 'i', 'n', 't', '8'] [] (.prim (.int ⟨true, 64⟩)) .nil)))
+  .nil)))
+
+def exSchema : AFields :=
+  .cons ['t', 's'] (.list (.ts false)) true
+  (.cons ['m'] (.map .utf8 (.int ⟨true, 64⟩)) false
+  (.cons ['s'] (.struct (.cons ['d'] .date32 false (.cons ['n'] (.int ⟨true, 8⟩) false .nil))) false .nil))
+
+def exVal : SFields :=
+  .cons ['t', 's', ',', 'e', 'l', 'e', 'm', '=', 't', 'i', 'm', 'e', 's', 't', 'a', 'm', 'p'] []
+      (.slice false (.cons (.time ⟨16725225600, 123456789⟩) (.cons .nil .nil)))
+  (.cons ['m'] [] (.map false (.cons (.str ['b']) (.int 7) (.cons (.str ['a']) .nil .nil)))
+  (.cons ['-'] [] (.bool true)
+  (.cons ['s', ',', 's', 't', 'r', 'u', 'c', 't'] []
+      (.struct (.cons ['d', ',', 'd', 'a', 't', 'e'] [] (.time ⟨-43200, 5⟩) (.cons ['n', ',', 'i', 'n', 't', '8'] [] (.int (-128)) .nil)))
+  .nil)))
+
+example : deriveFields exTy 0 = .ok exSchema := by rfl
+
+example : WTfields exTy exSchema exVal := by
+  simp [exTy, exSchema, exVal, WTfields, WT, WTs, WTkvs, LeafWT, KeyTy, tagged, tagName, derefTy, isPtr, bitsOK,
+    ITy.InRange, ITy.lo, ITy.hi, NoArrowTags, NamesDistinct, Fresh, GoFields.tags]
+
+/-! ## 3. The derived schema is the same on every call -/
+
+/-- Every entry of the memo table is what the uncached walk computes for its key. -/
+def CacheOK {κ δ : Type} (build : κ → δ) (cache : List (κ × δ)) : Prop := ∀ e ∈ cache, e.2 = build e.1
+
+theorem describe_correct {κ δ : Type} [DecidableEq κ] (build : κ → δ) (cache : List (κ × δ)) (k : κ)
+    (h : CacheOK build cache) :
+    (describe build cache k).2 = build k ∧ CacheOK build (describe build cache k).1 := by
+  unfold describe
+  split
+  · rename_i e he
+    have hm := List.mem_of_find?_eq_some he
+    have hk : e.1 = k := by simpa using List.find?_some he
+    exact ⟨by rw [h e hm, hk], h⟩
+  · refine ⟨rfl, ?_⟩
+    intro e he
+    simp only [List.mem_cons] at he
+    rcases he with he | he
+    · subst he; rfl
+    · exact h e he
+
+/-- For every history of `describeStruct` calls, starting from the empty table, every call returns
+the description the uncached derivation computes for its type — whatever was described before,
+however often: the schema a type gets never depends on hidden state. -/
+theorem schema_same_on_every_call {κ δ : Type} [DecidableEq κ] (build : κ → δ) :
+    ∀ (ks : List κ) (cache : List (κ × δ)), CacheOK build cache →
+      describeAll build cache ks = ks.map build
+  | [], _, _ => rfl
+  | k :: ks, cache, h => by
+    have hc := describe_correct build cache k h
+    simp only [describeAll, List.map_cons, hc.1]
+    rw [schema_same_on_every_call build ks _ hc.2]
+
+example : describeAll (fun n : Nat => n * n) [] [3, 4, 3, 3, 4] = [9, 16, 9, 9, 16] := by decide
 
 end Vgi.Props.C08
